@@ -32,6 +32,9 @@ type Env struct {
 	// expression talks about (its own recorded draws, or fresh constants when
 	// the expression is a callee's postcondition)
 	sample func(k int) string
+	// entry bindings of the parameters (loop environments only): inside old(..)
+	// a parameter name means its value on entry, even if the loop reassigns it
+	entryVars map[string]envVar
 }
 
 type specErr struct{ msg string }
@@ -82,6 +85,10 @@ func (g *Gen) funcEnv(st, old *State, res []Val) *Env {
 // havocked); otherwise phis take their value along the edge from `from`.
 func (g *Gen) loopEnv(h *ssa.BasicBlock, from *ssa.BasicBlock, st *State) *Env {
 	env := g.funcEnv(st, g.entry, nil)
+	env.entryVars = map[string]envVar{}
+	for n, v := range env.vars {
+		env.entryVars[n] = v
+	}
 	// variables in scope by source name
 	names, addrs := g.varsAt(h)
 	for n, v := range names {
@@ -777,6 +784,18 @@ func (e *Env) call(x *ECall) Val {
 	switch x.Fn {
 	case "old":
 		n := e.with(e.old)
+		if e.entryVars != nil {
+			vars := map[string]envVar{}
+			for k, v := range e.vars {
+				vars[k] = v
+			}
+			for k, v := range e.entryVars {
+				if !e.bound[k] && !v.deref {
+					vars[k] = v
+				}
+			}
+			n.vars = vars
+		}
 		return n.tr(x.Args[0])
 	case "val":
 		v := arg(0)
@@ -918,6 +937,11 @@ func (e *Env) call(x *ECall) Val {
 	case "ifacetyp":
 		v := arg(0)
 		return Val{T: sx("i-typ", v.T), S: "Int"}
+	case "visited":
+		// visited(m, k): key k has been produced by the running range over map m
+		m, k := arg(0), arg(1)
+		mt := m.G.Underlying().(*types.Map)
+		return Val{T: sx("select", sx("select", g.heap(e.st, mapHeapName(mt, "vis"), g.mapHasSort(mt)), m.T), k.T), S: "Bool"}
 	case "maphas":
 		m, k := arg(0), arg(1)
 		mt := m.G.Underlying().(*types.Map)
@@ -1889,6 +1913,8 @@ func (g *Gen) appendOp(c *ssa.CallCommon) Val {
 	if hn == "El.uint8" && !srcIsString {
 		// ghost: the abstract byte string of the result is the concatenation
 		g.assume(sx("=", sx("bs", A, soff, newLen), sx("cat", sx("bs", old, soff, slen), sx("bs", sx("select", h, sx("s-arr", t.T)), sx("s-off", t.T), n))))
+		// the prefix keeps its bytes (elements below the old length are copied / untouched)
+		g.assume(sx("=", sx("bs", A, soff, slen), sx("bs", old, soff, slen)))
 	}
 	// an append that fits writes into the existing backing array
 	{
